@@ -142,7 +142,7 @@ func (e *EventSubscription) Enqueue(f func()) {
 	// This only applies if no locks are active
 	if locks == nil && count == 0 {
 		verifKick(e)
-		e.cache.inCh <- e
+		e.cache.enqueue(e)
 	}
 }
 
@@ -157,7 +157,7 @@ func (e *EventSubscription) enqueueUnlock(f func()) {
 
 	if count == 0 {
 		verifKick(e)
-		e.cache.inCh <- e
+		e.cache.enqueue(e)
 	}
 }
 
